@@ -165,7 +165,7 @@ class GR:
                                                     fl or r.choice(["st", "st", "conc"]),
                                                     r.choice(["en", "en", "en-US", "pl", "ru", "ar", "fr", "cs", "lt", "ja", "xx", "pt", "pt-PT",
                                                               # locale CHAINS: only the first locale selects the plural rules
-                                                              "xx+pl", "xx+ar", "en+pl", "pl+en", "pt-PT+ru", "ja+lt"]))
+                                                              "xx+pl", "xx+ar", "en+pl", "pl+en", "pt-PT+ru", "ja+lt", "-"]))
 
     def requests(self, args=None):
         r = self.r
@@ -281,7 +281,7 @@ def handwritten():
           "m1 = { NUMBER($n, type: \"ordinal\") ->\n [zero] z\n [one] o\n [two] t\n [few] f\n [many] m\n *[other] x\n }\n"
           "m2 = { NUMBER($n, minimumFractionDigits: 1) ->\n [one] o\n [few] f\n [many] m\n *[other] x\n }\n"
           "m3 = { $o ->\n [one] o\n [two] t\n [few] f\n *[other] x\n }\n")
-    for loc in PLURAL_LOCALES + ["xx+pl", "xx+ar+ru", "en+pl", "pl+en", "ja+lt+cs"]:
+    for loc in PLURAL_LOCALES + ["xx+pl", "xx+ar+ru", "en+pl", "pl+en", "ja+lt+cs", "-", "und"]:
         for fl in ("st", "conc"):
             for nn in ("i0", "i1", "i2", "i3", "i5", "i11", "i21", "t" + hx("1.5"), "t" + hx("1.0")):
                 cfg = "iso=0;tr=none;fm=none;fl=%s;loc=%s" % (fl, loc)
